@@ -272,3 +272,97 @@ Theorem claim_discharges_search_hypothesis V (cmp : V -> V -> Z) (ci : col_index
 Proof.
   intros H Hasc. apply Z.eqb_eq in Hasc. apply claim_gives_ascending_nonnull; assumption.
 Qed.
+
+(** * The forms stated in Properties/C05.v *)
+Theorem bytes_page_bounds_within sw (l : list bytes) mn mx :
+  page_bounds cmp_bytes (fun _ => false) sw l = Some (mn, mx) ->
+  (forall v, In v l -> cmp_bytes mn v <= 0 /\ cmp_bytes v mx <= 0) /\ In mn l /\ In mx l.
+Proof.
+  intros H. destruct (bytes_page_bounds_sound sw l mn mx H) as (W & I1 & I2).
+  split; [|auto]. intros v Hv. exact (W v Hv eq_refl).
+Qed.
+
+Theorem be128_page_bounds_within (l : list bytes) mn mx :
+  bounds_byte BBe128 l = Some (mn, mx) ->
+  (forall v, In v l -> cmp_be128 mn v <= 0 /\ cmp_be128 v mx <= 0) /\ In mn l /\ In mx l.
+Proof.
+  intros H. destruct (be128_page_bounds_sound l mn mx H) as (W & I1 & I2).
+  split; [|auto]. intros v Hv. exact (W v Hv eq_refl).
+Qed.
+
+Theorem num_counts_exact (k : numkind) (pages : list (list (option N))) i vals :
+  nth_error pages i = Some vals ->
+  let ci := index_num k (map (page_of_values (cmp_num k) (nan_num k) false) pages) in
+  nth_error (ci_null_counts ci) i = Some (Z.of_nat (count_nulls vals)) /\
+  exists flag, nth_error (ci_null_pages ci) i = Some flag /\
+               (flag = true <-> Forall (fun o => o = None) vals).
+Proof.
+  intros H.
+  pose proof (map_nth_error (page_of_values (cmp_num k) (nan_num k) false) i pages H) as Hq.
+  destruct (index_counts_exact N 0%N (fun v => v) (fun v => v) (order_num k) _ _ _ Hq) as (H1 & H2 & _).
+  destruct (page_of_values_counts N (cmp_num k) (nan_num k) false vals) as (_ & E2 & E3).
+  cbv zeta. unfold index_num. split.
+  - rewrite H1, E2. reflexivity.
+  - eexists. split; [exact H2|exact E3].
+Qed.
+
+Theorem byte_counts_any_pages (k : bytekind) (limit : Z) ps i p :
+  byte_pages_ok k ps -> nth_error ps i = Some p ->
+  let ci := index_byte k limit ps in
+  nth_error (ci_null_counts ci) i = Some (pi_num_nulls p) /\
+  nth_error (ci_null_pages ci) i = Some (pi_num_values p =? pi_num_nulls p).
+Proof.
+  intros Hok H. cbv zeta. rewrite (index_byte_generic k limit ps Hok).
+  destruct (index_counts_exact bytes (byte_zero k) (byte_tmin k limit) (byte_tmax k limit) (byte_ord k) ps i p H)
+    as (H1 & H2 & _). auto.
+Qed.
+
+Theorem num_boundary_order_nonnull (k : numkind) ps :
+  let ci := index_num k ps in
+  (ci_order ci = 1 -> ascending_nonnull N (cmp_num k) (to_search_index ci)) /\
+  (ci_order ci = 2 -> ascending_nonnull N (fun a b => cmp_num k b a) (to_search_index ci)).
+Proof.
+  cbv zeta. pose proof (num_boundary_order_true k ps) as H. split; intros E.
+  - exact (claim_gives_ascending_nonnull N (cmp_num k) _ H E).
+  - exact (claim_gives_descending_nonnull N (cmp_num k) _ H E).
+Qed.
+
+Theorem byte_boundary_order_nonnull (k : bytekind) (limit : Z) ps :
+  k <> BDecimal -> byte_pages_ok k ps ->
+  let ci := index_byte k limit ps in
+  (ci_order ci = 1 -> ascending_nonnull bytes cmp_bytes (to_search_index ci)) /\
+  (ci_order ci = 2 -> ascending_nonnull bytes (fun a b => cmp_bytes b a) (to_search_index ci)).
+Proof.
+  intros Hk Hok. cbv zeta. pose proof (byte_boundary_order_true k limit ps Hk Hok) as H.
+  split; intros E.
+  - exact (claim_gives_ascending_nonnull bytes cmp_bytes _ H E).
+  - exact (claim_gives_descending_nonnull bytes cmp_bytes _ H E).
+Qed.
+
+Theorem num_discharges_search_hypothesis (k : numkind) ps :
+  let ci := index_num k ps in
+  well_formed N (cmp_num k) (ci_order ci =? 1) (to_search_index ci).
+Proof. cbv zeta. apply claim_discharges_search_hypothesis. apply num_boundary_order_true. Qed.
+
+Theorem byte_discharges_search_hypothesis (k : bytekind) (limit : Z) ps :
+  k <> BDecimal -> byte_pages_ok k ps ->
+  let ci := index_byte k limit ps in
+  well_formed bytes cmp_bytes (ci_order ci =? 1) (to_search_index ci).
+Proof.
+  intros Hk Hok. cbv zeta. apply claim_discharges_search_hypothesis.
+  apply byte_boundary_order_true; assumption.
+Qed.
+
+Theorem int96_order_is_signed a b :
+  (a < 2 ^ 96)%N -> (b < 2 ^ 96)%N -> cmp_i96 a b = cmpZ (sintZ 96 a) (sintZ 96 b).
+Proof.
+  intros Ha Hb. rewrite cmp_i96_key, (i96_key_small a Ha), (i96_key_small b Hb). reflexivity.
+Qed.
+
+Theorem num_chunk_counts_exact (k : numkind) ps :
+  cs_num_values (chunk_num k ps) = sumZ (map (@pi_num_values N) ps) /\
+  cs_null_count (chunk_num k ps) = sumZ (map (@pi_num_nulls N) ps).
+Proof. apply chunk_counts_exact. Qed.
+
+Theorem num_page_bounds_none (k : numkind) (l : list N) : bounds_num k l = None <-> l = [].
+Proof. apply page_bounds_none. Qed.
